@@ -17,9 +17,12 @@
 (* message that left a node; it may be delivered (and kept, to be          *)
 (* delivered again: duplication / replay), in any order, or dropped.       *)
 (* Details transcribed from the code:                                      *)
-(*  - pay_for_offer_intern enqueues the invoice request BEFORE the         *)
-(*    duplicate-id check of add_new_awaiting_invoice: a refused call still *)
-(*    sends a request (carrying the same payment id);                      *)
+(*  - pay_for_offer_intern refuses a payment id that is in use before it   *)
+(*    builds or enqueues anything: a refused call sends no invoice request *)
+(*    (it did once: the request carried the pending id and its invoice was *)
+(*    paid under that id -- Bug "dup_sends_request"); the scripts still    *)
+(*    try to hand over the request / invoice of every refused call, which  *)
+(*    may name another offer (offer 3: the payee's own, another amount);   *)
 (*  - needs_retry is true from creation: the first message_received after  *)
 (*    the call sends the request once more, later ones do not; a manager   *)
 (*    restored from a snapshot that has needs_retry set does so again;     *)
@@ -45,7 +48,7 @@ EXTENDS OfferFlow, Json
 CONSTANTS NP,          \* payment ids 1..NP of the payer
           Manual,      \* the payer's user handles invoices itself (manually_handle_bolt12_invoices)
           Hold,        \* the payer's user handles events only when the script says so
-          Offs,        \* offers a call may name: 1 (the payee's own), 2 (an altered copy)
+          Offs,        \* offers a call may name: 1 (the payee's own), 2 (an altered copy), 3 (the payee's own, another amount)
           MaxPay,      \* pay_for_offer calls per id
           MaxKeep,     \* deliveries after which the network keeps a copy (duplicates)
           MaxTick, MaxRestart, MaxSave, MaxAband, MaxErr, MaxMsgRecv, MaxSend,
@@ -55,7 +58,7 @@ CONSTANTS NP,          \* payment ids 1..NP of the payer
           CodeTicks,   \* n of StaleExpiration::TimerTicks(n) in pay_for_offer (the check instantiates it from the source)
           Stale,       \* restarts from a snapshot the monitors have overtaken
           Bug          \* "none" | "dup_await" | "second_invoice" | "early_expiry" | "abandon_silent" | "err_other"
-                       \* | "late_invoice" | "answer_altered" | "manual_autopay" | "stale_not_taken"
+                       \* | "late_invoice" | "answer_altered" | "manual_autopay" | "stale_not_taken" | "dup_sends_request"
 
 VARIABLES dst,       \* [p -> "none" | "await" | "invrecv" | "retry" | "ful" | "aband" | "gone"]
           exp,       \* [p -> timer ticks remaining]      (StaleExpiration::TimerTicks)
@@ -69,7 +72,7 @@ VARIABLES dst,       \* [p -> "none" | "await" | "invrecv" | "retry" | "ful" | "
           dgen,      \* [p -> number of accepted calls the manager knows of]  (which use of an id an event belongs to)
           shown,     \* [p -> hashes of the invoices the payer's user was shown, in order]
           msgs,      \* every onion message that left a node: [kind, c, p, h, st, n]   st: "held" | "gone" | "dropped"
-          ncall, calls,   \* calls[c] = [p, off]
+          ncall, calls,   \* calls[c] = [p, off, acc]
           nhash,     \* payment hashes handed out by the payee
           hts,       \* HTLCs of the payer: [p, h, id, loc]   loc: "out" | "done"
           reqGot,    \* calls whose request was handed to the payee
@@ -87,7 +90,8 @@ mvars == <<ovars, dvars, obs, hist, quiet, nops, feat>>
 
 P == 1..NP
 A == 1000
-AmtOf(o) == IF o = 1 THEN A ELSE A + 1
+AmtOf(o) == IF o = 1 THEN A ELSE IF o = 2 THEN A + 1 ELSE 2 * A
+OkOffer(o) == o # 2
 Payer == 1
 Payee == 0
 
@@ -106,12 +110,15 @@ F(S) == feat' = feat \cup S
 Idle == obs = <<>>
 MaxOf(S) == CHOOSE x \in S : \A y \in S : y <= x
 
+\* the offer named by the call whose request the invoice with hash h answers
+OffOfHash(h) == calls[CHOOSE c \in DOMAIN calls : \E i \in 1..Len(msgs) : msgs[i].kind = "invoice" /\ msgs[i].h = h /\ msgs[i].c = c].off
+
 \* ---------------------------------------------------------------- observations -> OfferFlow
 MObs ==
   /\ obs # <<>>
   /\ LET o == Head(obs) IN
      CASE o.t = "open" -> OOpen({Payee, Payer}, Idem)
-       [] o.t = "pay" -> OPay(o.c, Payer, o.p, "offer", o.off, AmtOf(o.off), o.off = 1, Manual, o.handled, o.res)
+       [] o.t = "pay" -> OPay(o.c, Payer, o.p, "offer", o.off, AmtOf(o.off), OkOffer(o.off), Manual, o.handled, o.res)
        [] o.t = "reqdel" -> OReqDelivered(Payee, o.c)
        [] o.t = "invout" -> OInvoiceOut(Payee, o.c, o.h, AmtOf(calls[o.c].off), calls[o.c].off)
        [] o.t = "invdel" -> OInvoiceDelivered(Payer, o.c, o.h, AmtOf(calls[o.c].off), calls[o.c].off)
@@ -119,7 +126,7 @@ MObs ==
        [] o.t = "sendinv" -> OSendInv(Payer, o.p, o.h, o.res)
        [] o.t = "abandon" -> OAbandon(Payer, o.p)
        [] o.t = "tick" -> OTick(Payer)
-       [] o.t = "add" -> OAdd(Payer, 1, o.id, o.h, AmtOf(calls[acall[o.p]].off))
+       [] o.t = "add" -> OAdd(Payer, 1, o.id, o.h, AmtOf(OffOfHash(o.h)))
        [] o.t = "gotadd" -> OGotAdd(Payee, o.h)
        [] o.t = "claimable" -> OClaimable(Payee, o.h, o.amt, o.off, "offer")
        [] o.t = "claimcall" -> OClaimCall(o.h)
@@ -171,16 +178,19 @@ KeepOK(keep) == keep => nKeep < MaxKeep
 \* ---------------------------------------------------------------- the payer's user
 MPay(p, o) ==
   /\ Idle /\ nPay[p] < MaxPay /\ o \in Offs
-  \* (an id is only ever used for one offer: an invoice answering an earlier request of the id is indistinguishable
-  \* for the payer -- the library asks for a new payment id to retry; see checks/offer_common.py ASSUMPTIONS)
-  /\ \A c0 \in DOMAIN calls : calls[c0].p = p => calls[c0].off = o
   /\ LET c == ncall + 1
          accepted == dst[p] \in {"none", "gone"} \/ (Bug = "dup_await" /\ dst[p] = "await")
+         sends == accepted \/ Bug = "dup_sends_request"
      IN
-     /\ ncall' = c /\ calls' = Put(calls, c, [p |-> p, off |-> o])
+     \* (an id that is used AGAIN after an earlier use ended names the same offer: an invoice answering a request of the earlier
+     \* use is indistinguishable for the payer -- the library asks for a new payment id to retry; a call that is refused may
+     \* name any offer: it must have no effect)
+     /\ accepted => \A c0 \in DOMAIN calls : (calls[c0].p = p /\ calls[c0].acc) => calls[c0].off = o
+     \* (canonical: offer 3 is the one refused calls name)
+     /\ (o = 3) = (~accepted /\ 3 \in Offs)
+     /\ ncall' = c /\ calls' = Put(calls, c, [p |-> p, off |-> o, acc |-> accepted])
      /\ nPay' = [nPay EXCEPT ![p] = @ + 1]
-     \* enqueue_invoice_request comes first
-     /\ msgs' = Append(msgs, NewMsg("invreq", c, p, 0))
+     /\ msgs' = IF sends THEN Append(msgs, NewMsg("invreq", c, p, 0)) ELSE msgs
      /\ IF accepted
         THEN /\ dst' = [dst EXCEPT ![p] = "await"]
              /\ exp' = [exp EXCEPT ![p] = IF Bug = "early_expiry" THEN CodeTicks - 1 ELSE CodeTicks]
@@ -189,9 +199,14 @@ MPay(p, o) ==
              /\ dgen' = [dgen EXCEPT ![p] = @ + 1]
         ELSE UNCHANGED <<dst, exp, retry, flag, dhash, ftick, acall, dgen>>
      /\ obs' = <<[t |-> "pay", c |-> c, p |-> p, off |-> o, handled |-> evq = <<>>, res |-> IF accepted THEN "ok" ELSE "dup"]>>
-     /\ H(<<[op |-> "pay", node |-> Payer, id |-> p, off |-> o]>>)
+     \* the network tries to hand over whatever a refused call may have sent (nothing, if the call had no effect)
+     /\ H(<<[op |-> "pay", node |-> Payer, id |-> p, off |-> o]>>
+          \o (IF accepted \/ Bug = "dup_sends_request" THEN <<>>
+              ELSE <<[op |-> "deliver", kind |-> "invreq", call |-> c, n |-> 0, keep |-> FALSE],
+                     [op |-> "deliver", kind |-> "invoice", call |-> c, n |-> 0, keep |-> FALSE]>>))
      /\ F((IF accepted THEN {} ELSE {"pay-refused"}) \cup (IF accepted /\ dst[p] = "gone" THEN {"id-reused"} ELSE {})
-          \cup (IF ~accepted /\ dst[p] = "ful" THEN {"refused-fulfilled"} ELSE {}))
+          \cup (IF ~accepted /\ dst[p] = "ful" THEN {"refused-fulfilled"} ELSE {})
+          \cup (IF ~accepted /\ \E c0 \in DOMAIN calls : calls[c0].p = p /\ calls[c0].acc /\ calls[c0].off # o THEN {"refused-call-other-offer"} ELSE {}))
   /\ quiet' = FALSE
   /\ UNCHANGED <<areason, evq, shown, nhash, hts, reqGot, erred, saved, dirty, failedSince, listedAtSave, nKeep, nTick, nRestart, nAband, nErr, nMsgRecv, nSend, nSave, closed, confirmed, sentSince, ovars>>
 
@@ -259,7 +274,7 @@ MHandle ==
 MDeliverReq(i, keep) ==
   /\ Idle /\ Held(i) /\ msgs[i].kind = "invreq" /\ KeepOK(keep)
   /\ LET c == msgs[i].c
-         good == calls[c].off = 1 \/ Bug = "answer_altered"
+         good == OkOffer(calls[c].off) \/ Bug = "answer_altered"
          h == nhash + 1
      IN
      /\ reqGot' = reqGot \cup {c}
@@ -371,7 +386,6 @@ Res(x, ful) ==
   IF ~closed THEN <<[t |-> "resolve", id |-> hts[x].id, how |-> IF ful THEN "ful" ELSE "fail"]>>
   ELSE (IF confirmed THEN <<>> ELSE <<[t |-> "chaincommit", outs |-> {AmtOf(calls[acall[hts[y].p]].off) \div 1000 : y \in {z \in 1..Len(hts) : hts[z].loc = "out"}}]>>)
        \o <<[t |-> "chainhtlc", h |-> hts[x].h, preimage |-> ful]>>
-OffOfHash(h) == calls[CHOOSE c \in DOMAIN calls : \E i \in 1..Len(msgs) : msgs[i].kind = "invoice" /\ msgs[i].h = h /\ msgs[i].c = c].off
 MResolve(x, claim) ==
   /\ Idle /\ x \in 1..Len(hts) /\ hts[x].loc = "out"
   /\ LET p == hts[x].p
